@@ -21,6 +21,8 @@ import contextlib
 import io
 import itertools
 import math
+import os
+import sys
 
 from hypothesis import strategies as st
 
@@ -295,7 +297,55 @@ def same(a, b):
     return type(a) is type(b) and a == b
 
 
+# A mutated search / scan loop may not terminate.  Library frames of the codec
+# are traced while one fiber is examined and the number of executed lines is
+# bounded: deterministic (no clock), and far above anything a correct scan of
+# these small fibers needs (the largest count seen on the pinned tree is noted
+# next to STEP_BUDGET).
+
+class StepBudgetExceeded(Exception):
+    pass
+
+
+STEP_BUDGET = 400000          # max. observed on the pinned tree: see report
+_CODEC_DIR = os.sep + os.path.join("fibertree", "codec") + os.sep
+MAX_STEPS_SEEN = [0]
+
+
+@contextlib.contextmanager
+def step_budget(n):
+    count = [0]
+
+    def local(frame, event, arg):
+        if event == "line":
+            count[0] += 1
+            if count[0] > n:
+                raise StepBudgetExceeded()
+        return local
+
+    def glob(frame, event, arg):
+        return local if _CODEC_DIR in frame.f_code.co_filename else None
+
+    old = sys.gettrace()
+    sys.settrace(glob)
+    try:
+        yield count
+    finally:
+        sys.settrace(old)
+        if count[0] > MAX_STEPS_SEEN[0]:
+            MAX_STEPS_SEEN[0] = count[0]
+
+
 def check_fiber(f, rec, child_objs, dims, desc, where, bases, recorder):
+    try:
+        with step_budget(STEP_BUDGET):
+            _check_fiber(f, rec, child_objs, dims, desc, where, bases, recorder)
+    except StepBudgetExceeded:
+        raise Violation("hang", f"{where}: coords {rec['coords']}: scanning / coordToHandle / getSize of one fiber "
+                        f"executed more than {STEP_BUDGET} codec lines (non-terminating loop)")
+
+
+def _check_fiber(f, rec, child_objs, dims, desc, where, bases, recorder):
     fmt, r, leaf = rec["fmt"], rec["rank"], rec["leaf"]
     n = dims[r]
     f.cache = StubCache()
@@ -464,7 +514,7 @@ def cases(draw):
     for n in dims:
         total *= n
     # density class: all-zero, sparse, half, nearly dense, dense
-    zeros = draw(st.sampled_from([None, 6, 6, 2, 2, 1, 0]))
+    zeros = draw(st.sampled_from([6, 6, 2, 2, 2, 1, 1, 0, 0, None]))
     if zeros is None:
         flat = [0] * total
     else:
@@ -473,11 +523,12 @@ def cases(draw):
     # zero whole rows / slabs -> empty fibers
     if d >= 2 and zeros is not None:
         rows = total // dims[-1]
-        kill = draw(st.lists(st.booleans(), min_size=rows, max_size=rows)) if draw(st.booleans()) else []
+        kill = draw(st.lists(st.sampled_from([False, False, True]), min_size=rows, max_size=rows)) \
+            if draw(st.sampled_from([True, False, False])) else []
         for i, kflag in enumerate(kill):
             if kflag:
                 flat[i * dims[-1]:(i + 1) * dims[-1]] = [0] * dims[-1]
-        if d == 3 and draw(st.booleans()):
+        if d == 3 and draw(st.sampled_from([True, False, False])):
             slab = total // dims[0]
             i = draw(st.integers(0, dims[0] - 1))
             flat[i * slab:(i + 1) * slab] = [0] * slab
@@ -497,9 +548,10 @@ def cases(draw):
 def enumerate_small(tier):
     """all zero / non-zero patterns of small shapes, every descriptor, with and
     without an imposed shape one longer in every rank."""
-    shapes = [[1], [2], [3], [4], [1, 1], [1, 2], [2, 1], [2, 2], [2, 3], [3, 2], [1, 2, 2], [2, 1, 2], [2, 2, 1]]
+    shapes = [[1], [2], [3], [4], [1, 1], [1, 2], [2, 1], [2, 2], [2, 3], [3, 2], [1, 2, 2], [2, 1, 2], [2, 2, 1],
+              [2, 2, 2]]
     if tier == "thorough":
-        shapes += [[5], [6], [3, 3], [2, 4], [2, 2, 2], [2, 2, 3]]
+        shapes += [[5], [6], [3, 3], [2, 4], [2, 2, 3], [3, 2, 2]]
     for dims in shapes:
         total = 1
         for n in dims:
@@ -512,9 +564,9 @@ def enumerate_small(tier):
 PARTS = [
     Part("small", None, check, n_quick=0, n_thorough=0, enumerate=enumerate_small,
          exhaustive_note="every zero/non-zero pattern of the shapes [1]..[4], [1,1]..[3,2], [1,2,2], [2,1,2], "
-                         "[2,2,1] (thorough: also [5], [6], [3,3], [2,4], [2,2,2], [2,2,3]) x all 3^depth "
+                         "[2,2,1], [2,2,2] (thorough: also [5], [6], [3,3], [2,4], [2,2,3], [3,2,2]) x all 3^depth "
                          "descriptors x {no shape, shape+1 in every rank}"),
-    Part("codec", cases(), check, n_quick=260, n_thorough=1500),
+    Part("codec", cases(), check, n_quick=600, n_thorough=2500),
 ]
 
 
